@@ -212,14 +212,16 @@ PLANS["C15"] = {
 }
 PLANS["C04"] = {
     "level": "model_checking",
-    "kani": {"quick": ["c04::arity_eval", "c04::arity_eval_relaxed", "c04::arity_eval_vec", "c04::arity_eval_iter"],
-             "thorough": ["c04::arity_eval", "c04::arity_eval_relaxed", "c04::arity_eval_vec", "c04::arity_eval_iter"]},
+    "kani": {"quick": ["c04::arity_eval", "c04::arity_eval_relaxed", "c04::arity_eval_vec_1", "c04::arity_eval_vec_3", "c04::arity_eval_iter_1", "c04::arity_eval_iter_3"],
+             "thorough": ["c04::arity_eval", "c04::arity_eval_relaxed", "c04::arity_eval_vec_1", "c04::arity_eval_vec_2", "c04::arity_eval_vec_3",
+                          "c04::arity_eval_iter_1", "c04::arity_eval_iter_2", "c04::arity_eval_iter_3"]},
     "kani_timeout": {"quick": 900, "thorough": 2400},
     "owns_unprefixed": True,
     "trusted_base": [A_CBMC, A_FMT, A_NOOVF], "assumptions": [A_CBMC, A_FMT, A_NOOVF],
     "not_covered": ["brace tokenisation", "find_parsed_vars / find_var_index (name collection, order and lookup)", "reset_vars / var_names_union and derived expressions",
                     "the deep form's guards"],
-    "bounds": {"all": ["one-node FlatEx over two variables, symbolic variable index, value slices / vectors / iterators of length 0..=4 with symbolic values"]},
+    "bounds": {"quick": ["one-node FlatEx over two variables, symbolic variable index; eval / eval_relaxed: slices of symbolic length 0..=4; eval_vec / eval_iter: 1 and 3 values (error paths)"],
+               "thorough": ["as quick, plus eval_vec / eval_iter with exactly 2 values (the consuming evaluation; 23 min each)"]},
     "explanation": "Partial, bounded: arity guards and index binding of the flat form.",
 }
 
